@@ -1,165 +1,7 @@
-//! vcheck — property-based checks for Cosmian/cover_crypt (one binary per crypto configuration).
-//!
-//! usage: vcheck <ID> [--tier quick|thorough] [--seed N] [--out report.json]
-//!               [--known sig,sig] [--replay file] [--threads N]
-//!        vcheck --worker            (isolated child for hostile inputs)
-
-mod ccx;
-mod curve;
-mod driver;
-mod gen;
-mod model;
-mod props;
-mod report;
-mod runner;
-mod wire;
-mod worker;
-
-use report::Collector;
-
+//! vcheck binary: see lib.rs
 #[global_allocator]
-static ALLOC: worker::Counting = worker::Counting;
-use serde_json::json;
-use std::time::Instant;
-
-pub fn verif_root() -> String {
-    std::env::var("VERIF_ROOT").unwrap_or_else(|_| "/verif".to_string())
-}
-
-#[derive(Clone, Debug)]
-pub struct Ctx {
-    pub id: String,
-    pub thorough: bool,
-    pub seed: u64,
-    pub threads: usize,
-}
-
-impl Ctx {
-    /// pick the case count for the tier
-    pub fn n(&self, quick: u64, thorough: u64) -> u64 {
-        let scale: f64 = std::env::var("VERIF_SCALE").ok().and_then(|s| s.parse().ok()).unwrap_or(1.0);
-        let base = if self.thorough { thorough } else { quick };
-        ((base as f64) * scale).max(1.0) as u64
-    }
-    pub fn run_cfg(&self, cases: u64, stream_base: u64) -> runner::RunCfg {
-        runner::RunCfg {
-            seed: self.seed,
-            threads: self.threads,
-            cases,
-            max_shrink_iters: 1500,
-            stream_base,
-        }
-    }
-}
+static ALLOC: vcheck::worker::Counting = vcheck::worker::Counting;
 
 fn main() {
-    let args: Vec<String> = std::env::args().skip(1).collect();
-    if args.first().map(|s| s.as_str()) == Some("--worker") {
-        worker::child_main();
-        return;
-    }
-    if args.is_empty() {
-        eprintln!("usage: vcheck <ID> [--tier quick|thorough] [--seed N] [--out FILE] [--known a,b] [--replay FILE]");
-        std::process::exit(2);
-    }
-    let id = args[0].clone();
-    let mut tier = std::env::var("VERIF_TIER").unwrap_or_else(|_| "quick".into());
-    let mut seed: u64 = std::env::var("VERIF_SEED").ok().and_then(|s| s.parse().ok()).unwrap_or(1);
-    let mut out: Option<String> = None;
-    let mut known: Vec<String> = vec![];
-    let mut replay: Option<String> = None;
-    let mut threads: usize = std::thread::available_parallelism().map(|n| n.get()).unwrap_or(8).min(16);
-    let mut i = 1;
-    while i < args.len() {
-        match args[i].as_str() {
-            "--tier" => {
-                tier = args[i + 1].clone();
-                i += 1;
-            }
-            "--seed" => {
-                seed = args[i + 1].parse().expect("seed");
-                i += 1;
-            }
-            "--out" => {
-                out = Some(args[i + 1].clone());
-                i += 1;
-            }
-            "--known" => {
-                known = args[i + 1].split(',').filter(|s| !s.is_empty()).map(|s| s.to_string()).collect();
-                i += 1;
-            }
-            "--replay" => {
-                replay = Some(args[i + 1].clone());
-                i += 1;
-            }
-            "--threads" => {
-                threads = args[i + 1].parse().expect("threads");
-                i += 1;
-            }
-            x => {
-                eprintln!("unknown argument {x}");
-                std::process::exit(2);
-            }
-        }
-        i += 1;
-    }
-    runner::install_panic_hook();
-    let ctx = Ctx { id: id.clone(), thorough: tier == "thorough", seed, threads };
-    let col = Collector::new(&id, known);
-    let t0 = Instant::now();
-
-    let meta = if let Some(path) = &replay {
-        let text = std::fs::read_to_string(path).unwrap_or_else(|e| {
-            eprintln!("cannot read replay file {path}: {e}");
-            std::process::exit(2);
-        });
-        let v: serde_json::Value = serde_json::from_str(&text).expect("replay json");
-        let kind = v["kind"].as_str().unwrap_or("").to_string();
-        let r = runner::guarded(|| props::replay(&ctx, &kind, &v["case"], &col));
-        match r {
-            Ok(()) => {
-                println!("replay {path}: property held on this case");
-            }
-            Err(f) => {
-                println!("replay {path}: FAIL [{}] {}", f.signature, f.message);
-                if col.is_known(&f.signature) {
-                    col.known_hit(&f.signature, &f.message);
-                } else {
-                    col.violation(report::Violation {
-                        signature: f.signature,
-                        message: f.message,
-                        case: v["case"].clone(),
-                        replay: Some(path.clone()),
-                    });
-                }
-            }
-        }
-        props::Meta { level: "exploration", rule: "replay of one stored case".into(), exhaustive: false, assumptions: vec![] }
-    } else {
-        // regression tier: re-run every stored replay of this property first
-        props::regression(&ctx, &col);
-        props::run(&ctx, &col)
-    };
-
-    let wall = t0.elapsed().as_secs_f64();
-    let mut rep = col.to_json();
-    let o = rep.as_object_mut().unwrap();
-    o.insert("property_id".into(), json!(id));
-    o.insert("config".into(), json!(wire::CONFIG));
-    o.insert("tier".into(), json!(if ctx.thorough { "thorough" } else { "quick" }));
-    o.insert("seed".into(), json!(seed));
-    o.insert("level".into(), json!(meta.level));
-    o.insert("rule".into(), json!(meta.rule));
-    o.insert("exhaustive".into(), json!(meta.exhaustive));
-    o.insert("assumptions".into(), json!(meta.assumptions));
-    o.insert("wall_s".into(), json!(wall));
-    o.insert("threads".into(), json!(threads));
-    let text = serde_json::to_string_pretty(&rep).unwrap();
-    if let Some(p) = out {
-        std::fs::write(&p, &text).expect("write report");
-    } else {
-        println!("{text}");
-    }
-    let nviol = col.violations.lock().unwrap().len();
-    std::process::exit(if nviol > 0 { 1 } else { 0 });
+    vcheck::cli_main();
 }
